@@ -8,6 +8,7 @@ interprets what this translator reads from the text of the definitions:
     gen_holdout_early_return run    the `if (<cond on run>) return;` before the split (false if absent)
     gen_holdout_skip available perc the expression bound to `skip` (unsigned / size_t arithmetic made explicit)
     gen_fy_first / gen_fy_count / gen_fy_wraps
+    gen_holdout_tail                the statements after the loop (clone_schema / copy tail / erase tail)
                                     first index, number of iterations and "index wraps when skip = 0" of the
                                     Fisher-Yates loop header
   weight()                          gen_weight difficulty age  (uintmax_t arithmetic)
@@ -15,6 +16,7 @@ interprets what this translator reads from the text of the definitions:
                                     gen_shake_steps   calls made when the guard does not fire
   dss::init / dss::close            gen_init_steps / gen_close_steps  (calls, with `if (cond on the argument)`)
   dss::clear_evaluators             gen_clear_steps
+  dss::move_to_validation           gen_move_steps  (clone_schema / move all / clear training)
   src_search::tune_parameters       gen_tune_{dss,perc}_open user   (the test that decides "left open by the user"),
                                     gen_tune_*_dynamic_typeid (typeid of the object, not of the pointer),
                                     gen_dflt_* (environment::init)
@@ -277,20 +279,25 @@ def holdout_facts(src, out, problems):
             else:
                 raise Outside("loop header `%s; %s`" % (cond, step))
             continue
-        if q in ("std::copy(from,training_.end(),std::back_inserter(validation_))",
-                 "training_.erase(from,training_.end())"):
-            seen_tail.append(q)
+        tail_tok = {"std::copy(from,training_.end(),std::back_inserter(validation_))": "TCopyTail",
+                    "training_.erase(from,training_.end())": "TEraseTail",
+                    "validation_.clone_schema(training_)": "TCloneSchema"}.get(q)
+        if tail_tok:
+            if loop is None and tail_tok != "TCloneSchema":
+                raise Outside("`%s` before the Fisher-Yates loop" % st[:60])
+            seen_tail.append(tail_tok)
             continue
         if ignorable(st):
             continue
         raise Outside("statement of holdout_validation::init: `%s`" % st[:80])
-    if skip is None or loop is None or len(seen_tail) != 2 or not seen_tail[0].startswith("std::copy"):
-        raise Outside("holdout_validation::init: skip / loop / copy+erase not all found")
+    if skip is None or loop is None:
+        raise Outside("holdout_validation::init: skip / loop not found")
     out.append("Definition gen_holdout_early_return (run : Z) : bool := %s." % early)
     out.append("Definition gen_holdout_skip (available perc : Z) : Z := %s." % skip[0])
     out.append("Definition gen_fy_first (available : Z) : Z := %s." % loop[0])
     out.append("Definition gen_fy_count (available skip : Z) : Z := %s." % loop[1])
     out.append("Definition gen_fy_wraps : bool := %s." % loop[2])
+    out.append("Definition gen_holdout_tail : list tail_tok := [%s]." % "; ".join(seen_tail))
 
 
 STEP_CALLS = {
@@ -359,6 +366,20 @@ def dss_facts(src, out, problems):
     if w[1] != "u64":
         raise Outside("type of weight() is %s" % w[1])
     out.append("Definition gen_weight (difficulty age : Z) : Z := %s." % w[0])
+
+    mb = body_of(src, r"void\s+dss::move_to_validation\s*\(\s*\)")
+    if mb is None:
+        raise Outside("dss::move_to_validation not found")
+    mv = []
+    for st in statements(mb):
+        tok = {"std::move(training_.begin(),training_.end(),std::back_inserter(validation_))": "MMoveAll",
+               "training_.clear()": "MClearTraining",
+               "validation_.clone_schema(training_)": "MCloneSchema"}.get(squash(st))
+        if tok:
+            mv.append(tok)
+        elif not ignorable(st):
+            raise Outside("statement of dss::move_to_validation: `%s`" % st[:80])
+    out.append("Definition gen_move_steps : list move_tok := [%s]." % "; ".join(mv))
 
     for name, arg, sig in (("clear", None, r"void\s+dss::clear_evaluators\s*\(\s*\)"),
                            ("init", "run", r"void\s+dss::init\s*\(\s*unsigned(?:\s+(\w+))?\s*\)"),
@@ -470,6 +491,12 @@ Definition sentinel : Z := 4294967295.
 Inductive gstep :=
 | GResetT | GResetV | GIncAgeT | GIncAgeV | GShakeImpl | GClearBoth | GClearT | GClearV | GMoveToValidation
 | GIf (c : Z -> bool) (s : gstep).
+
+(* statements after the Fisher-Yates loop of holdout_validation::init, and of dss::move_to_validation, in
+   order; *CloneSchema (validation_.clone_schema(training_): columns and class map only) does not touch the
+   examples *)
+Inductive tail_tok := TCloneSchema | TCopyTail | TEraseTail.
+Inductive move_tok := MCloneSchema | MMoveAll | MClearTraining.
 
 (* recognised statements of dss::shake_impl, in order *)
 Inductive shape_tok := SMoveAll | SPartition | SFallback | SMoveSelected | SEraseSelected | SResetTraining.
